@@ -202,6 +202,18 @@ def check_round(case, state):
     require(close(amp, torch.sqrt(p_ref), REF_RTOL) and close(amp ** 2, mod2, 1e-9), "amplitude",
             "amplitude() is not |psi| = sqrt(marginal)")
 
+    # precision tier: the same reference in product form with torch's softplus reproduces the library's documented arithmetic, so every
+    # quantity must agree to ~1e-11 (a single-precision intermediate, a rounded constant or an added regulariser shows here)
+    with R.library_precision():
+        p_prec = torch.exp(R.log_marg(am, V))
+        psi_prec = R.psi_ref(am, ph, V)
+    PREC = 1e-11
+    require(close(prob, p_prec, PREC) and close(amp, torch.sqrt(p_prec), PREC) and close(Z, p_prec.sum(), PREC), "precision:probability/amplitude/normalization",
+            "probability / amplitude / normalization are not accurate to double precision (relative 1e-11 against the product-form reference)",
+            worst=float(((prob - p_prec).abs() / p_prec).max()))
+    require(bool(torch.all((psi - psi_prec).abs() <= PREC * psi_prec.abs() + 1e-300)), "precision:psi",
+            "psi is not accurate to double precision (relative 1e-11 against the product-form reference)", worst=float(((psi - psi_prec).abs() / (psi_prec.abs() + 1e-300)).max()))
+    require(close(pn, p_prec / p_prec.sum(), PREC), "precision:normalised-probability", "probability(space, Z) is not accurate to double precision")
     if case["type"] == "positive":
         require(bool(torch.all(psi.imag == 0)), "positive:imag", "positive wavefunction has a non-zero imaginary part")
         require(bool(torch.all(psi.real >= 0)), "positive:sign", "positive wavefunction has a negative entry")
@@ -276,6 +288,14 @@ def check_round(case, state):
         require(o.dim() == 0, f"callform:1d-{name}-shape", f"{name} of a 1-D state has shape {tuple(o.shape)}, expected scalar")
         require(abs(float(o) - float(ref[k])) <= 1e-12 * abs(float(ref[k])) + 1e-300, f"callform:1d-{name}",
                 f"{name}(v) for a 1-D v differs from the batched value")
+    # the caller's batch buffer filled in place with other configurations between two calls
+    buf = sub.clone()
+    state.psi(buf); state.probability(buf)
+    buf.copy_(space[list(reversed(idx))])
+    pr_ = R.lib_to_c(state.psi(buf))
+    require(close(pr_.real, psi.real[list(reversed(idx))], 1e-12, 1e-300) and close(pr_.imag, psi.imag[list(reversed(idx))], 1e-12, 1e-300) and
+            close(state.probability(buf).double(), prob[list(reversed(idx))], 1e-12), "callform:buffer-refilled-in-place",
+            "psi / probability of a sample tensor that was refilled in place do not follow the tensor's current contents")
     # results belong to the caller: every returned tensor is edited in place (as a caller normalising or shifting a result would) and each
     # entry point is asked again, for the whole space, a sub-batch and the 1-D form; earlier results must also survive later calls
     if id(state) in _OWNED:          # once per state object (the first round); later rounds re-verify values only
